@@ -106,6 +106,9 @@ class SimES:
         self.inflight = 0
         self.max_inflight = 0
         self.on_event: Optional[Callable[[str, Wire], None]] = None
+        # consulted when the response of a so far successful request is due: may turn it into an HTTP error (a fault that is
+        # placed by what has happened while the request was in flight)
+        self.late_policy: Optional[Callable[[Wire], Optional[int]]] = None
 
     # called from the patched StaticRequest.send
     def on_send(self, req) -> Wire:
@@ -181,6 +184,11 @@ def _patched_start():
                 await asyncio.sleep(w.delay)
         finally:
             es.on_done(w)
+        if es.late_policy is not None and w.outcome == "ok":
+            late_status = es.late_policy(w)
+            if late_status:
+                w.outcome, w.status = "status", late_status
+                w.resp_body = json.dumps({"error": {"type": "sim_exception", "reason": "injected"}, "status": late_status}).encode("utf-8")
         if w.outcome == "conn-error":
             raise aiohttp.ClientConnectionError("simulated connection reset")
         if w.outcome == "disconnect":
